@@ -1,6 +1,6 @@
 """C09 — PREFER_DATES_FROM selects the past/future occurrence, keeping named parts."""
 import calendar
-from datetime import datetime, timedelta
+from datetime import datetime, timedelta, timezone
 
 from ..gen.common import MN, WN, dst_edges, dst_wall_case, rng
 from ..hooks import AnchorCounter
@@ -32,6 +32,7 @@ N_DST = {"quick": 6000, "thorough": 120000}
 def shards(tier, seed):
     out = [{"part": "random", "i": i, "n": N_RANDOM[tier] // 12} for i in range(12)]
     out += [{"part": "dst", "i": i, "n": N_DST[tier] // 2} for i in range(2)]
+    out += [{"part": "aware", "i": 0, "n": N_DST[tier] // 3}]
     if tier == "thorough":
         for y0 in range(1971, 2067, 4):
             out.append({"part": "everyday", "y0": y0, "y1": min(y0 + 4, 2067)})
@@ -225,6 +226,83 @@ def check_case(ctx, c):
     ctx.sample({"string": s, "base": c["base"], "PREFER_DATES_FROM": pref, "TIMEZONE": c["zone"], "result": iso(r)}, limit=3)
 
 
+AWARE_ZONES = ["UTC", "+0530", "-0800", "+0900", "-0330", "EST", "America/New_York", "Europe/Paris", "Asia/Kolkata"]
+
+
+def check_aware(ctx, c):
+    """Time-only string, timezone-AWARE reference (no ambiguity about the reference instant), TIMEZONE given: the result,
+    read as a wall time of TIMEZONE, is the nearest occurrence on the preferred side of the reference instant."""
+    import pytz
+    from dateparser.date import DateDataParser
+    from dateparser.utils import get_timezone_from_tz_string
+
+    b = parse_iso(c["base"])
+    pref, h, mi, zone = c["pref"], c["h"], c["mi"], c["zone"]
+    st = {"RELATIVE_BASE": b, "PREFER_DATES_FROM": pref, "TIMEZONE": zone}
+    try:
+        r = DateDataParser(languages=["en"], settings=st).get_date_data(c["s"])["date_obj"]
+    except Exception as e:
+        r = e
+    ctx.ran()
+    tz = get_timezone_from_tz_string(zone)
+
+    def inst(naive):
+        if hasattr(tz, "_utc_transition_times"):
+            return tz.localize(naive, is_dst=None).astimezone(pytz.utc)
+        return (tz.localize(naive) if hasattr(tz, "localize") else naive.replace(tzinfo=tz)).astimezone(pytz.utc)
+
+    b_utc = b.astimezone(pytz.utc)
+    b_in_z = b.astimezone(tz).replace(tzinfo=None)
+    feats = {"kind": "time-aware-base", "pref": pref, "zone_utc": zone == "UTC",
+             "own_date_differs": b.replace(tzinfo=None).date() != b_in_z.date()}
+    try:
+        cands = [(b_in_z + timedelta(days=dd)).replace(hour=h, minute=mi, second=0, microsecond=0) for dd in (-1, 0, 1)]
+        insts = [(x, inst(x)) for x in cands]
+    except Exception:
+        ctx.count("aware:gap-or-fold-skipped")
+        return
+    if pref == "past":
+        ok = [x for x, i in insts if i <= b_utc]
+        exp = max(ok) if ok else None
+    elif pref == "future":
+        ok = [x for x, i in insts if i >= b_utc]
+        exp = min(ok) if ok else None
+    else:
+        exp = None
+    if not isinstance(r, datetime):
+        ctx.violation(c, r, exp, "occurrence:no-result", feats)
+        return
+    if (r.hour, r.minute, r.second) != (h, mi, 0):
+        ctx.violation(c, r, exp, "occurrence:time-of-day-changed", feats)
+        return
+    if exp is not None and r.replace(tzinfo=None) != exp:
+        label = "occurrence:wrong"
+        if abs(r.replace(tzinfo=None) - exp) == timedelta(days=1) and feats["own_date_differs"]:
+            # the day was taken from the date the reference shows in its own offset, not from its date in TIMEZONE
+            label = "occurrence:aware-reference-date-not-taken-in-TIMEZONE"
+        ctx.violation(c, r, exp, label, feats)
+        return
+    if exp is None and abs(r.replace(tzinfo=None) - b_in_z) > timedelta(days=1, hours=2):
+        label = "occurrence:period"
+        if feats["own_date_differs"] and abs(r.replace(tzinfo=None) - b_in_z) < timedelta(days=2, hours=2):
+            label = "occurrence:aware-reference-date-not-taken-in-TIMEZONE"
+        ctx.violation(c, r, "within a day of the reference", label, feats)
+        return
+    ctx.count("aware_base:%s" % pref)
+    ctx.nontrivial(c["s"], c["base"], pref, zone, "aware")
+
+
+def gen_aware(rnd):
+    off = rnd.choice([0, 0, 5, -7, 9.5, -3, 13])
+    b = datetime(rnd.randrange(1975, 2037), rnd.randrange(1, 13), rnd.randrange(8, 22), rnd.randrange(24), rnd.randrange(60),
+                 tzinfo=timezone(timedelta(hours=off)))
+    h, mi = rnd.randrange(24), rnd.randrange(60)
+    if rnd.random() < 0.15:
+        h, mi = b.hour, b.minute
+    return {"base": iso(b), "pref": rnd.choice(PREFS), "kind": "time-aware", "zone": rnd.choice(AWARE_ZONES), "pmoy": "current",
+            "h": h, "mi": mi, "s": "%02d:%02d" % (h, mi)}
+
+
 def run_shard(ctx, desc):
     import dateparser  # noqa
 
@@ -235,6 +313,10 @@ def run_shard(ctx, desc):
             rnd = rng(ctx.seed, "C09", desc["i"])
             for _ in range(desc["n"]):
                 check_case(ctx, gen_case(rnd))
+        elif desc["part"] == "aware":
+            rnd = rng(ctx.seed, "C09aware", desc["i"])
+            for _ in range(desc["n"]):
+                check_aware(ctx, gen_aware(rnd))
         elif desc["part"] == "dst":
             # time-only strings naming a wall time inside (or at the edge of) a DST gap/fold of the TIMEZONE setting,
             # reference on/around the transition day
@@ -276,4 +358,7 @@ def finalize(merged, tier, seed):
 
 def replay_case(ctx, v):
     PathTap.install()
+    if v["case"].get("kind") == "time-aware":
+        check_aware(ctx, v["case"])
+        return
     check_case(ctx, v["case"])
